@@ -481,12 +481,12 @@ func rewriteHandle(stmts []ast.Stmt, recv string, cbFunc string, cbArg int) ([]a
 	return out, ncb, err
 }
 
-// callbackConst checks that hc.<fn>(host, …, changed) forwards `changed` and a literal isHealthy to runCallbacks and
-// returns that literal.
-func callbackConst(f *ast.File, fn string) (string, error) {
+// callbackConst reads hc.<fn>(host, …, changed): it must call runCallbacks(host, X, L) exactly once, unconditionally,
+// with X = the `changed` parameter or a literal and L a literal; returns the Lean renderings of X (over `changed`) and L.
+func callbackConst(f *ast.File, fn string) (string, string, error) {
 	fd := findFunc(f, "healthChecker", fn)
 	if fd == nil {
-		return "", fmt.Errorf("%s not found", fn)
+		return "", "", fmt.Errorf("%s not found", fn)
 	}
 	var params []string
 	for _, p := range fd.Type.Params.List {
@@ -495,10 +495,10 @@ func callbackConst(f *ast.File, fn string) (string, error) {
 		}
 	}
 	if len(params) < 2 {
-		return "", fmt.Errorf("%s: parameters", fn)
+		return "", "", fmt.Errorf("%s: parameters", fn)
 	}
 	hostP, changedP := params[0], params[len(params)-1]
-	res, n := "", 0
+	chg, res, n := "", "", 0
 	var walkErr error
 	ast.Inspect(fd.Body, func(nd ast.Node) bool {
 		c, ok := nd.(*ast.CallExpr)
@@ -506,15 +506,23 @@ func callbackConst(f *ast.File, fn string) (string, error) {
 			return true
 		}
 		n++
-		if len(c.Args) != 3 || exprKey(c.Args[0]) != hostP || exprKey(c.Args[1]) != changedP {
-			walkErr = fmt.Errorf("%s: runCallbacks is not called with (host, changed, <literal>)", fn)
+		if len(c.Args) != 3 || exprKey(c.Args[0]) != hostP {
+			walkErr = fmt.Errorf("%s: runCallbacks is not called with (host, …, …)", fn)
 			return true
+		}
+		switch k := exprKey(c.Args[1]); k {
+		case changedP:
+			chg = "changed"
+		case "true", "false":
+			chg = k
+		default:
+			walkErr = fmt.Errorf("%s: second argument of runCallbacks is neither the changed parameter nor a literal", fn)
 		}
 		res = exprKey(c.Args[2])
 		return true
 	})
 	if walkErr != nil {
-		return "", walkErr
+		return "", "", walkErr
 	}
 	// the callback call must be unconditional: a top-level statement of the body
 	top := 0
@@ -526,9 +534,9 @@ func callbackConst(f *ast.File, fn string) (string, error) {
 		}
 	}
 	if n != 1 || top != 1 || (res != "true" && res != "false") {
-		return "", fmt.Errorf("%s: expected exactly one unconditional runCallbacks(host, changed, true|false)", fn)
+		return "", "", fmt.Errorf("%s: expected exactly one unconditional runCallbacks(host, changed, true|false)", fn)
 	}
-	return res, nil
+	return chg, res, nil
 }
 
 func genHealthCheck() (string, error) {
@@ -566,7 +574,7 @@ func genHealthCheck() (string, error) {
 		if !top {
 			return "", fmt.Errorf("%s: %s is not called unconditionally", name, cbFunc)
 		}
-		isH, err := callbackConst(hf, cbFunc)
+		chgExpr, isH, err := callbackConst(hf, cbFunc)
 		if err != nil {
 			return "", err
 		}
@@ -580,7 +588,7 @@ func genHealthCheck() (string, error) {
 			},
 			Calls: map[string]string{},
 			Ret:   func(rs []string) string { return "ERR-return" },
-			Fall:  "(unHealthCount, healthCount, flag, cbChanged, " + isH + ")",
+			Fall:  "(unHealthCount, healthCount, flag, " + cbFunc + "Changed cbChanged, " + isH + ")",
 		}
 		body, err := env.block(stmts, "  ")
 		if err != nil {
@@ -590,7 +598,8 @@ func genHealthCheck() (string, error) {
 			return "", fmt.Errorf("%s: early return", name)
 		}
 		lname := strings.ToLower(name[:1]) + name[1:]
-		s := "/-- sessionChecker." + name + ": (unHealthCount, healthCount, host has FAILED_ACTIVE_HC) ↦ the same after the call,\n" +
+		s := "/-- healthChecker." + cbFunc + ": the `changed` it forwards to runCallbacks -/\ndef " + cbFunc + "Changed (changed : Bool) : Bool := " + chgExpr + "\n"
+		s += "/-- sessionChecker." + name + ": (unHealthCount, healthCount, host has FAILED_ACTIVE_HC) ↦ the same after the call,\n" +
 			"and the (changed, isHealthy) passed to every callback. Counters are uint32 in Go, unbounded `Int` here. -/\n"
 		s += "def " + lname + " (unHealthCount healthCount : Int) (flag : Bool) (threshold : Int) : Int × Int × Bool × Bool × Bool :=\n" +
 			"  let cbChanged := false\n  " + body + "\n"
